@@ -85,3 +85,66 @@ func (c *TCPConn) Close() error {
 	}
 	return c.ep.Close()
 }
+
+// ---------------------------------------------------------------------------
+// what package input needs: TCP listeners pass through to the real network,
+// the UDP socket is a model when the harness installs one
+// (vrt.SetEnv("udp", UDPModel)).
+
+type TCPListener = net.TCPListener
+type UDPAddr = net.UDPAddr
+
+func ListenTCP(network string, laddr *TCPAddr) (*TCPListener, error) {
+	return net.ListenTCP(network, laddr)
+}
+
+func ResolveUDPAddr(network, address string) (*UDPAddr, error) {
+	if udpModel() != nil {
+		return &UDPAddr{Zone: address}, nil
+	}
+	return net.ResolveUDPAddr(network, address)
+}
+
+// UDPModel delivers datagrams to the relay's UDP read loop.
+type UDPModel interface {
+	// ReadFrom blocks (vrt.WaitUntil) until a datagram is available or the socket is closed.
+	ReadFrom(b []byte) (int, Addr, error)
+	Close() error
+}
+
+type UDPConn struct {
+	m    UDPModel
+	real *net.UDPConn
+}
+
+func udpModel() UDPModel {
+	if m, ok := vrt.Env("udp").(UDPModel); ok {
+		return m
+	}
+	return nil
+}
+
+func ListenUDP(network string, laddr *UDPAddr) (*UDPConn, error) {
+	if m := udpModel(); m != nil {
+		return &UDPConn{m: m}, nil
+	}
+	c, err := net.ListenUDP(network, laddr)
+	if err != nil {
+		return nil, err
+	}
+	return &UDPConn{real: c}, nil
+}
+
+func (c *UDPConn) ReadFrom(b []byte) (int, Addr, error) {
+	if c.real != nil {
+		return c.real.ReadFrom(b)
+	}
+	return c.m.ReadFrom(b)
+}
+
+func (c *UDPConn) Close() error {
+	if c.real != nil {
+		return c.real.Close()
+	}
+	return c.m.Close()
+}
